@@ -510,20 +510,30 @@ qlisttbl_data_t *qlisttbl_getmulti(qlisttbl_t *tbl, const char *name, bool newme
 
     qlisttbl_obj_t obj;
     memset((void *)&obj, 0, sizeof(obj)); // must be cleared before call
+    bool failed = false;
     qlisttbl_lock(tbl);
-    while (tbl->getnext(tbl, &obj, name, newmem) == true) {
+    while (true) {
+        if (tbl->getnext(tbl, &obj, name, newmem) == false) {
+            if (errno == ENOMEM) failed = true;
+            break;
+        }
         numfound++;
 
         // allocate object array.
         if (numfound >= allocobjs) {
             if (allocobjs == 0) allocobjs = 10;  // start from 10
             else allocobjs *= 2;  // double size
-            objs = (qlisttbl_data_t *)realloc(objs, sizeof(qlisttbl_data_t) * allocobjs);
-            if (objs == NULL) {
+            qlisttbl_data_t *newobjs = (qlisttbl_data_t *)realloc(objs, sizeof(qlisttbl_data_t) * allocobjs);
+            if (newobjs == NULL) {
                 DEBUG("qlisttbl->getmulti(): Memory reallocation failure.");
-                errno = ENOMEM;
+                if (newmem == true) {
+                    free(obj.name);
+                    free(obj.data);
+                }
+                failed = true;
                 break;
             }
+            objs = newobjs;
         }
 
         // copy reference
@@ -543,6 +553,16 @@ qlisttbl_data_t *qlisttbl_getmulti(qlisttbl_t *tbl, const char *name, bool newme
         newobj->type = 0;  // mark, end of objects
     }
     qlisttbl_unlock(tbl);
+
+    // out of memory, release the partial result (it's always terminated).
+    if (failed == true) {
+        qlisttbl_freemulti(objs);
+        if (numobjs != NULL) {
+            *numobjs = 0;
+        }
+        errno = ENOMEM;
+        return NULL;
+    }
 
     // return found counter
     if (numobjs != NULL) {
